@@ -129,6 +129,32 @@ Theorem C15_value_semantics : forall o s n, writes o <> Some n -> (n < length s)
 Proof. exact step_frame. Qed.
 Print Assumptions C15_value_semantics.
 
+(* ---- no hidden state (the object keeps nothing between calls that an in-place operation could leave stale).
+   same_value a b = both results have the same data and shape (carriers: the same represented matrix and shape), or
+   both are the same documented error.  These are consequences of C15_step / C15_program: every result is related
+   to the result of the dense program, which is a function of the current matrices only. *)
+(* todense, diagonal, contract and contract_multi leave every carrier of the store as it is *)
+Theorem C15_reads_keep_store : forall o s, writes o = None -> fst (step o s) = s.
+Proof. exact read_keeps_store. Qed.
+Print Assumptions C15_reads_keep_store.
+
+(* any operation on two stores that represent the same matrices returns the same value and leads to stores that
+   again represent the same matrices *)
+Theorem C15_no_hidden_state : forall o s1 s2 ds ds' r', wfs s1 -> wfs s2 -> Rs s1 ds -> Rs s2 ds ->
+  dstep o ds = Some (ds', r') ->
+  same_value (snd (step o s1)) (snd (step o s2)) /\ Rs (fst (step o s1)) ds' /\ Rs (fst (step o s2)) ds'.
+Proof. exact step_no_hidden_state. Qed.
+Print Assumptions C15_no_hidden_state.
+
+(* two histories (programs from the empty store) ending in the same matrices: every further operation, a read in
+   particular, returns the same value after both, namely the value of the dense operation *)
+Theorem C15_history_independence : forall p1 p2 ds rs1 rs2 o ds' r',
+  drun p1 [] = Some (ds, rs1) -> drun p2 [] = Some (ds, rs2) -> dstep o ds = Some (ds', r') ->
+  same_value (snd (step o (fst (run p1 [])))) (snd (step o (fst (run p2 [])))) /\
+  Rres (snd (step o (fst (run p1 [])))) r'.
+Proof. exact history_independence. Qed.
+Print Assumptions C15_history_independence.
+
 (* ---- non-vacuity: a concrete program with real/complex mixtures, zero vectors, an empty carrier, slicing, zeroing and
    contraction is inside the domain of the dense side (so C15_program applies to it from the empty store) *)
 Definition demo : list op :=
@@ -165,3 +191,18 @@ Example C15_demo_outputs :
   nth 14 (snd (run demo [])) (Er OtherE) = Ok (OVec [(-16, 55); (0, 0); (-23, 48)] true) /\
   nth 15 (snd (run demo [])) (Ok ONone) = Er RuntimeE.
 Proof. vm_compute. repeat split. Qed.
+
+(* non-vacuity of C15_history_independence: contract_multi after (new; contract_multi; zero a row) and after
+   (new with that row already zero) — same matrices, different histories and different stored vectors *)
+Definition hist1 : list op :=
+  [ ONew 0 (UList [IVec (rv [1; 2; 3]) false; IVec (rv [0; 1; 1]) false]) (UList [IVec (rv [1; -1]) false; IVec (rv [2; 5]) false]) (-1) (-1);
+    OContractMulti 0 [MSp [(0, 1, (2, 0)); (1, 0, (1, 0))] false];
+    OSet 0 (IInt 1) (ISlice None None None) c0 ].
+Definition hist2 : list op :=
+  [ ONew 0 (UList [IVec (rv [1; 0; 3]) false; IVec (rv [0; 0; 1]) false; IVec (rv [0; 0; 0]) false])
+           (UList [IVec (rv [1; -1]) false; IVec (rv [2; 5]) false; IVec (rv [1; 1]) false]) 3 2 ].
+Example C15_history_independence_nonvacuous : exists ds rs1 rs2 ds' r',
+  drun hist1 [] = Some (ds, rs1) /\ drun hist2 [] = Some (ds, rs2) /\
+  dstep (OContractMulti 0 [MSp [(0, 1, (2, 0)); (1, 0, (1, 0))] false]) ds = Some (ds', r') /\
+  snd (step (OContractMulti 0 [MSp [(0, 1, (2, 0)); (1, 0, (1, 0))] false]) (fst (run hist1 []))) = Ok (OVec [(-2, 0)] false).
+Proof. eexists _, _, _, _, _. repeat split; vm_compute; reflexivity. Qed.
